@@ -24,8 +24,8 @@ func newProduct(id, tier string, needModel bool, o oracleFn, extra ...gen.Ladder
 
 func productBounds(what string) map[string]string {
 	return map[string]string{
-		"quick":    what + ": all paths of <=2 steps over the 50-step alphabet (each also with each of 7 single trailing functions) in both decodings, and all paths of 3..4 steps over the 16-step alphabet (float64 decoding), x every JSON document of <=4 nodes over keys {a,b}, scalars {1,2,\"a\",true,null}, arrays <=3",
-		"thorough": what + ": all paths of <=3 steps over the 50-step alphabet (+ single trailing functions after <=2 steps), 4 steps over the 16-step alphabet, 5 steps over the 8-step alphabet, x every JSON document of <=5 nodes (same alphabets), both decodings",
+		"quick":    what + ": all paths of <=2 steps over the 55-step alphabet (each also with each of 7 single trailing functions) in both decodings, and all paths of 3..4 steps over the 16-step alphabet (float64 decoding), x every JSON document of <=4 nodes plus wide and member documents; every filter atom and pairwise combination under $.c on the member documents; over keys {a,b}, scalars {1,2,\"a\",true,null}, arrays <=3",
+		"thorough": what + ": all paths of <=2 steps over the 55-step alphabet (+ single trailing functions) x every document of <=5 nodes, wide and member documents, both decodings; all paths of 3 steps over the 55-step alphabet, 4 over the 16-step and 5 over the 8-step alphabet x every document of <=4 nodes; every filter atom and pairwise combination under $.c on the member documents",
 	}
 }
 
